@@ -54,6 +54,15 @@ impl RawValue {
         parsed_value.clone()
     }
 
+    /// Parses the raw text (keeping the result for `get_value`) and tells whether it is JSON at all.
+    pub(crate) fn check_json(&self) -> Result<(), serde_json::Error> {
+        let mut parsed_guard = self.parsed.borrow_mut();
+        if parsed_guard.is_none() {
+            *parsed_guard = Some(serde_json::from_str(&self.raw)?);
+        }
+        Ok(())
+    }
+
     pub(crate) fn as_inner(&self) -> &str {
         &self.raw
     }
